@@ -243,6 +243,7 @@ func (c *lru) Update(key, cmd string, value RedisMessage) (pxat int64) {
 
 			ele = c.list.Front()
 			for c.size > c.max && ele != nil {
+				next := ele.Next() // list.Remove clears the links of the removed element
 				if e := ele.Value.(*cacheEntry); e.val.typ != 0 { // do not delete pending entries
 					kc := e.kc
 					if delete(kc.cache, e.cmd); len(kc.cache) == 0 {
@@ -251,7 +252,7 @@ func (c *lru) Update(key, cmd string, value RedisMessage) (pxat int64) {
 					c.list.Remove(ele)
 					c.size -= e.size
 				}
-				ele = ele.Next()
+				ele = next
 			}
 		}
 	}
